@@ -48,13 +48,32 @@ def jobs(tier, seed):
     for (m, Q, D) in ([(1, 1, 1), (2, 2, 2), (3, 2, 3)] if tier == "quick" else [(1, 1, 1), (2, 2, 2), (3, 2, 3), (2, 3, 3), (3, 3, 3), (4, 2, 2)]):
         for w in ((0, 6) if tier == "quick" else range(7)):
             out.append(dict(name=f"mirjalili-m{m}-Q{Q}-D{D}-wd{w}", problem="mirjalili", m=m, Q=Q, D=D, weekday=w, devices=1, cost=5 * m * Q * D))
-    for (m, Qa, Qb) in ([(1, 1, 1), (1, 2, 1), (1, 2, 2)] if tier == "quick" else [(1, 1, 1), (1, 2, 1), (1, 2, 2), (1, 1, 2), (2, 1, 1), (2, 2, 1)]):
+    for (m, Qa, Qb) in ([(1, 1, 1), (1, 2, 1), (1, 1, 2), (1, 2, 2)] if tier == "quick" else [(1, 1, 1), (1, 2, 1), (1, 2, 2), (1, 1, 2), (2, 1, 1), (2, 2, 1)]):
         out.append(dict(name=f"hendrix-m{m}-Qa{Qa}-Qb{Qb}", problem="hendrix", m=m, Qa=Qa, Qb=Qb, devices=1, cost=60 * m * Qa * Qb))
+    # concrete leg: instances created after sibling instances (one parameter changed each) in the same process
+    out.append(dict(name="after-siblings-forest", problem="forest", history=True, devices=1, cost=5))
+    out.append(dict(name="after-siblings-de_moor-D3", problem="de_moor", D=3, history=True, devices=1, cost=30))
+    out.append(dict(name="after-siblings-mirjalili-m2-Q2-D2", problem="mirjalili", m=2, Q=2, D=2, weekday=1, history=True, devices=1, cost=30))
+    out.append(dict(name="after-siblings-hendrix-m1-Qa2-Qb1", problem="hendrix", m=1, Qa=2, Qb=1, history=True, main_obligation="sum+dropped==1", devices=1, cost=60))
     return out
+
+
+def run_history(job, ob):
+    """concrete leg: the real problem with the real special functions, built after sibling instances in this process,
+    evaluated by the same independent computation the replays use"""
+    shipped.BUILT_SIBLINGS.clear()
+    ok, msg = replay(dict(job=job, cex=dict(p=0.3), obligation=job.get("main_obligation", "")))
+    ob.extra["siblings_built"] = len(shipped.BUILT_SIBLINGS)
+    ob.prove("siblings-were-built", [], len(shipped.BUILT_SIBLINGS) > 0, kind="history leg is not vacuous", cex=lambda m: dict(history=True))
+    ob.prove("holds-after-sibling-instances", [], not ok, cex=lambda m: dict(history=True, p=0.3, msg=msg),
+             kind="the property's concrete evaluation on an instance created after sibling instances")
+    return ob.result()
 
 
 def run_job(job):
     ob = Obligations(job, default_timeout_ms=120000)
+    if job.get("history"):
+        return run_history(job, ob)
     return {"forest": run_forest, "de_moor": run_de_moor, "mirjalili": run_mirjalili, "hendrix": run_hendrix}[job["problem"]](job, ob)
 
 
@@ -171,6 +190,9 @@ def replay(data):
     """evaluate the real problem with real special functions at parameters realising the counterexample where possible"""
     c = unq(data["cex"]) or {}
     job = data["job"]
+    if job.get("history") and not shipped.HISTORY:
+        with shipped.history():
+            return replay(data)
     p = job["problem"]
     if p == "forest":
         pb = shipped.build("forest", S=3, p=float(c["p"]))
@@ -198,7 +220,11 @@ def replay(data):
         for ma, mb, sp in itertools.product((0.5, 2.0, 9.0), (0.5, 2.0, 9.0), (0.0, 0.3, 1.0)):
             pb = shipped.build("hendrix", max_useful_life=hs_m, max_order_quantity_a=Qa, max_order_quantity_b=Qb, demand_poisson_mean_a=ma, demand_poisson_mean_b=mb,
                                substitution_probability=sp)
-            K = pb.max_demand
+            K = hs_m * (max(Qa, Qb) + 2)   # documented truncation point (the known finding is about exactly this one)
+            if kind == "truncation-point==documented":
+                if int(pb.max_demand) != K:
+                    bad.append((Qa, Qb, int(pb.max_demand), K))
+                break
             pr = np.asarray(jax.vmap(jax.vmap(pb.random_event_probability, in_axes=(None, None, 0)), in_axes=(0, None, None))(
                 pb.state_space, jnp.array([0, 0]), pb.random_event_space))
             pa, pbm = st.poisson.pmf(np.arange(K + 1), ma), st.poisson.pmf(np.arange(K + 1), mb)
